@@ -280,7 +280,7 @@ def setup(tier, seed):
     jobs = _jobs(tier)
     return {
         'jobs': jobs,
-        'budget_s': 900 if tier == 'quick' else 2400,
+        'budget_s': 780 if tier == 'quick' else 2400,
         'explanation': 'every path runs in a freshly forked process that never ran a session: probe B0 (symbolic fee/balance), then session A with '
                        'independent symbolic fee/balance and an enumerated structure (other exchange name, spot instead of futures, other leverage/'
                        'mode, other symbol/timeframe/data route, warm-up, fast mode, abort by an exception in a hook or by InsufficientMargin), then '
